@@ -720,6 +720,15 @@ example : evaluate genCfg 64 [[80, 84, 50, 72], [88, 88, 88, 88, 45, 87, 88, 88,
          [50, 48, 50, 48, 45, 48, 49, 45, 50, 50, 84, 49, 48], [50, 48, 50, 48, 45, 48, 49, 45, 50, 57, 84, 49, 48]] := by
   decide
 
+/-- C15 **monthday_stage_never_raises** — the general form of the `XXXX-02-29` regression: for EVERY month-day
+candidate (any month and day numbers — `XXXX-02-29`, `XXXX-02-30`, `XXXX-13-01` —, with or without a time) and every
+range whose start year is at most one after its end year, `resolve_date_against_constraint` returns; a date that does
+not exist in some year counts as "not in the range". -/
+theorem monthday_stage_never_raises (m dd : Int) (tmo : Option Time) (c : DateRange)
+    (hy : (Date.ofOrd c.s).y ≤ (Date.ofOrd c.e).y + 1) :
+    ∃ x, resolveDateAgainstConstraint { month := some (.int m), dayOfMonth := some (.int dd), time := tmo } c = .ok x :=
+  monthday_stage_total m dd tmo c hy
+
 /-- C15 **evaluate_complete_hours** — completeness for the duration family: an hours candidate `PTnH`, one datetime
 constraint `S = d0 Th:m:s` and one pure date-range constraint `[r.s, r.e)`: if the calendar sum `S + n hours`
 (date `d1`, time `(h+n) mod 24 : m : s`) lies in the range, its TIMEX is in the result. -/
